@@ -4,7 +4,7 @@ from typing import Optional, cast
 from flamapy.core.models import VariabilityModel
 from flamapy.core.exceptions import FlamaException
 from flamapy.core.operations import EstimatedConfigurationsNumber
-from flamapy.metamodels.fm_metamodel.models import FeatureModel, Feature
+from flamapy.metamodels.fm_metamodel.models import FeatureModel, Feature, Relation
 
 
 class FMEstimatedConfigurationsNumber(EstimatedConfigurationsNumber):
@@ -52,4 +52,19 @@ def count_configurations_rec(feature: Feature) -> int:
         elif relation.is_or():
             children_counts = [count_configurations_rec(f) + 1 for f in relation.children]
             counts.append(math.prod(children_counts) - 1)
+        elif relation.is_mutex():
+            counts.append(sum((count_configurations_rec(f) for f in relation.children)) + 1)
+        else:
+            counts.append(count_cardinality_group(relation))
     return math.prod(counts)
+
+
+def count_cardinality_group(relation: Relation) -> int:
+    """Configurations of a [card_min..card_max] group: ways[k] counts the configurations
+    that select exactly k of the children seen so far."""
+    ways = [1]
+    for child in relation.children:
+        child_count = count_configurations_rec(child)
+        ways = [(ways[k] if k < len(ways) else 0) + (ways[k - 1] * child_count if k > 0 else 0)
+                for k in range(len(ways) + 1)]
+    return sum(ways[relation.card_min:relation.card_max + 1])
